@@ -199,6 +199,7 @@ def make_fakes():
     pd.Series = minipd.Series
     pd.Index = minipd.Index
     pd.concat = minipd.concat
+    pd.unique = minipd.unique
     fakes['pandas'] = pd
     ds = FakeMod('datashader')
     tf = FakeMod('datashader.transfer_functions')
